@@ -34,6 +34,9 @@ void     vf_thread(int64_t k, const char * label);
 void     vf_watch_end();
 // k-th loop-carried value havocked by a loop summary on this path ("value at the start of the last iteration")
 double   vf_havoc(int64_t k);
+// states, before the loop runs, that the k-th havocked loop-carried value equals v (same as assuming vf_havoc(k) == v, but
+// substituted so that engine atoms coincide)
+void     vf_havoc_is(int64_t k, double v);
 // 1 while executing symbolically (vf_d available), 0 in concrete runs (engine or native): use finite differences there
 bool     vf_symbolic();
 // like vf_eq with an explicit relative tolerance for the concrete runs
